@@ -22,6 +22,36 @@ def _subst(node, env):
     return ast.fix_missing_locations(T().visit(copy.deepcopy(node)))
 
 
+_PARAMS: dict = {}
+
+
+def _param_names(which):
+    """parameter names of _from_signature (vector/_methods.py) and of the backends' _wrap_result (without self), read from the analysed tree"""
+    if which not in _PARAMS:
+        from .loader import facts
+        try:
+            if which == "_from_signature":
+                fn = facts("src/vector/_methods.py").functions.get("_from_signature")
+                _PARAMS[which] = [a.arg for a in fn.args.args] if fn is not None else None
+            else:
+                fn = facts("src/vector/backends/object.py").method("VectorObject2D", "_wrap_result")
+                _PARAMS[which] = [a.arg for a in fn.args.args][1:] if fn is not None else None
+        except Exception:  # noqa: BLE001
+            _PARAMS[which] = None
+    return _PARAMS[which]
+
+
+def _positional(call, params):
+    """the same call with its keyword arguments moved into positional order (f(a, c=z, b=y) -> f(a, y, z)); unchanged when that is not possible"""
+    if not isinstance(call, ast.Call) or not call.keywords or params is None:
+        return call
+    kw = {k.arg: k.value for k in call.keywords}
+    rest = params[len(call.args):]
+    if None in kw or set(kw) != set(rest):
+        return call
+    return ast.copy_location(ast.Call(func=call.func, args=[*call.args, *[kw[p] for p in rest]], keywords=[]), call)
+
+
 class DispatchSummary:
     def __init__(self, path, fn: ast.FunctionDef):
         self.path = path
@@ -63,7 +93,7 @@ class DispatchSummary:
         a0 = body[0]
         if unparse(a0.targets[0]) != "(function, *returns)" and unparse(a0.targets[0]) != "function, *returns":
             self.problems.append(f"unexpected unpacking target {unparse(a0.targets[0])}")
-        call = a0.value
+        call = _positional(a0.value, _param_names("_from_signature"))
         if not (isinstance(call, ast.Call) and unparse(call.func) == "_from_signature" and len(call.args) == 3):
             self.problems.append("not a _from_signature(name, table, signature) call")
             return
@@ -110,6 +140,8 @@ class DispatchSummary:
         if ret is None:
             self.problems.append("no return inside the with-block")
             return
+        if isinstance(ret, ast.Call) and isinstance(ret.func, ast.Attribute) and ret.func.attr == "_wrap_result":
+            ret = _positional(ret, _param_names("_wrap_result"))
         if not (isinstance(ret, ast.Call) and isinstance(ret.func, ast.Attribute) and ret.func.attr == "_wrap_result" and len(ret.args) == 4):
             self.problems.append("return is not <handler>._wrap_result(flavor, result, returns, num_vecargs)")
             return
